@@ -222,7 +222,35 @@ pub fn base_cfg(rng: &mut SRng, quick: bool, want_byz: bool, want_crash: bool) -
         hostile: None,
         rival: None,
         track_routes: false,
+        force_byz_mode: None,
+        slow_diss: None,
         label: String::new(),
+    }
+}
+
+/// Directed C02 family: thin margin (see run_c02).
+pub fn thin_margin_cfg(rng: &mut SRng, cfg: &mut RunCfg) {
+    // roles: 0 Byzantine (notarizes, never finalizes), 1 crashed, last = the slow correct node
+    let stakes: Vec<u64> = if rng.random_bool(0.5) { vec![18, 22, 30, 20, 10] } else { vec![18, 22, 25, 15, 11, 9] };
+    let ix_byz = 0usize;
+    let ix_crash = 1usize;
+    let ix_slow = stakes.len() - 1;
+    let mut order: Vec<usize> = (0..stakes.len()).collect();
+    order.shuffle(rng);
+    let permuted: Vec<u64> = order.iter().map(|i| stakes[*i]).collect();
+    let pos = |orig: usize| order.iter().position(|i| *i == orig).unwrap();
+    cfg.ep = make_epoch(rng, &permuted, "thin-margin");
+    cfg.byz = [pos(ix_byz)].into_iter().collect();
+    cfg.byz_leader = ByzLeader::Silent;
+    cfg.byz_votes = true;
+    cfg.force_byz_mode = Some(crate::adversary::ByzVote::NotarOnly);
+    cfg.byz_certs = false;
+    cfg.crashes = vec![(pos(ix_crash), Duration::ZERO)];
+    cfg.diss = DissKind::Trivial;
+    cfg.chaos.partition.clear();
+    cfg.delta = *[Duration::from_millis(100), Duration::from_millis(240)].choose(rng).unwrap();
+    if rng.random_bool(0.7) {
+        cfg.slow_diss = Some(pos(ix_slow));
     }
 }
 
@@ -266,7 +294,7 @@ pub fn run_c02(ctx: &mut Ctx) -> Result<(), String> {
     let rt = tokio::runtime::Builder::new_current_thread().enable_all().start_paused(true).build().map_err(|e| e.to_string())?;
     let mut rng = ctx.rng("c02");
     let runs = ctx.iters(32, 1200);
-    for _ in 0..runs {
+    for run_ix in 0..runs {
         let (wb, wc) = (rng.random_bool(0.6), rng.random_bool(0.5));
         let mut cfg = base_cfg(&mut rng, ctx.quick(), wb, wc);
         let chaos: Chaos = chaos_profiles().choose(&mut rng).unwrap().clone();
@@ -295,6 +323,14 @@ pub fn run_c02(ctx: &mut Ctx) -> Result<(), String> {
             cfg.diss = DissKind::Trivial;
         }
         cfg.label = "c02".into();
+        if (run_ix as usize + ctx.shard) % 4 == 3 {
+            // directed: thin margin. 19 % silent Byzantine, 20 % crashed, 61 % correct: the fast path is out of
+            // reach and slow finalization needs a finalization vote from *every* correct node in every slot,
+            // whatever order its own vote, the others' votes and the certificates reach it in
+            thin_margin_cfg(&mut rng, &mut cfg);
+            cfg.label = "c02-thin-margin".into();
+            ctx.count("thin-margin-executions");
+        }
         let out = rt.block_on(tokio::task::unconstrained(execute(&cfg, &mut rng)));
         judge_all(ctx, "C02", &cfg, &out);
     }
